@@ -164,7 +164,6 @@ def oracle(c, o):
         return [("panic", "the lifecycle code panicked: %s" % o["panic"])]
     v = []
     pre = {"reg": [], "os": {"installed": [], "procs": [], "nc": 0}, "killed": []}
-    disciplined = True          # every manager op so far came right after a refresh
     probe_fault = False         # some get_process_pid call was made to fail
     prev_kind = None
     for k, (op, s) in enumerate(zip(c["ops"], o["steps"])):
@@ -172,8 +171,6 @@ def oracle(c, o):
         calls = o["log"][pre["os"]["nc"]:s["os"]["nc"]]
         if any(x[0] == "pid" and x[2] for x in calls):
             probe_fault = True
-        if kind in MANAGER_OPS and prev_kind != "refresh":
-            disciplined = False
         procs = {p: pid for p, pid in s["os"]["procs"]}
         installed = {nme for nme, _ in s["os"]["installed"]}
         where = "step %d (%s)" % (k, kind)
@@ -192,10 +189,17 @@ def oracle(c, o):
             elif n["pid"] is not None:
                 v.append(("pid-without-running", "%s: %s has status %d but records pid %s" % (where, n["name"], n["status"], n["pid"])))
         i = op.get("i", 0)
-        if kind in MANAGER_OPS and i < len(s["reg"]):
+        step_probe_fault = any(x[0] == "pid" and x[2] for x in calls)
+        pre_procs = {p: pid for p, pid in pre["os"]["procs"]}
+        pre_installed = {nme for nme, _ in pre["os"]["installed"]}
+        if kind in MANAGER_OPS and i < len(s["reg"]) and i < len(pre["reg"]):
             n = s["reg"][i]
+            b = pre["reg"][i]
+            # no drift before the operation: if the service's process was alive, the registry knew
+            # (what the refresh at the start of every antctl command establishes)
+            in_sync = b["bin"] not in pre_procs or b["status"] == 1
             # a successful stop / removal leaves no process and no recorded pid
-            if kind in ("stop", "remove") and s["out"] == 0 and prev_kind == "refresh" and not probe_fault:
+            if kind in ("stop", "remove") and s["out"] == 0 and in_sync and not step_probe_fault:
                 if n["pid"] is not None or n["bin"] in procs:
                     v.append(("%s-left-process" % kind, "%s: reported success but %s has pid %s / live pid %s"
                               % (where, n["name"], n["pid"], procs.get(n["bin"]))))
@@ -206,13 +210,13 @@ def oracle(c, o):
         if kind in MANAGER_OPS + ("add",) and s["out"] not in OKS:
             for j, n in enumerate(s["reg"]):
                 was = pre["reg"][j]["status"] if j < len(pre["reg"]) else None
-                if n["status"] == 1 and was != 1:
-                    v.append(("failed-op-newly-running", "%s failed (code %d) yet %s went from %s to Running"
-                              % (where, s["out"], n["name"], was)))
-        # a removed service stays removed
-        if disciplined and not probe_fault:
-            for j, p in enumerate(pre["reg"]):
-                if p["status"] == 3 and (j >= len(s["reg"]) or s["reg"][j]["status"] != 3 or s["reg"][j]["name"] != p["name"]):
+                if n["status"] == 1 and was != 1 and (n["pid"] is None or procs.get(n["bin"]) != n["pid"]):
+                    v.append(("failed-op-newly-running", "%s failed (code %d) yet %s went from %s to Running "
+                              "with no such process" % (where, s["out"], n["name"], was)))
+        # a removed service (no process, no definition left) stays removed
+        for j, p in enumerate(pre["reg"]):
+            if p["status"] == 3 and p["bin"] not in pre_procs and p["name"] not in pre_installed:
+                if j >= len(s["reg"]) or s["reg"][j]["status"] != 3 or s["reg"][j]["name"] != p["name"]:
                     v.append(("removed-came-back", "%s: %s was Removed and is now %s" % (
                         where, p["name"], s["reg"][j]["status"] if j < len(s["reg"]) else "gone")))
         # names and directories are never shared
@@ -320,6 +324,32 @@ def rand_history(rng, cmd_style):
     return {"faults": sorted(rng.sample(range(0, 6 * n), nf)), "ops": ops}
 
 
+def directed():
+    """port-boundary histories: a second add requests a single port / the first / the last port of a range
+    that an earlier service records as node, metrics or rpc port (incl. allocated and observed ports)"""
+    out = []
+    for fld in ("node_port", "metrics_port", "rpc_port"):
+        for first in ({"op": "add", fld: 6000}, {"op": "add", "count": 3, fld: [6000, 6002]}):
+            taken = [6000] if "count" not in first else [6000, 6001, 6002]
+            for fld2 in ("node_port", "metrics_port", "rpc_port"):
+                for t in taken:
+                    out.append([first, {"op": "add", fld2: t}])
+                    out.append([first, {"op": "add", "count": 2, fld2: [t - 1, t]}])
+                    out.append([first, {"op": "add", "count": 2, fld2: [t, t + 1]}])
+                    out.append([first, {"op": "add", "count": 3, fld2: [t - 2, t]}])
+                out.append([first, {"op": "add", "count": 2, fld2: [5998, 5999]}])
+                out.append([first, {"op": "add", "count": 2, fld2: [6003, 6004]}])
+    for fld2 in ("node_port", "metrics_port", "rpc_port"):
+        # ports handed out by get_available_port (40000 rpc, 40001 metrics) and the port observed after a start (50001)
+        pre = [{"op": "add", "metrics": True}, {"op": "start", "i": 0}]
+        for t in (40000, 40001, 50001):
+            out.append(pre + [{"op": "add", fld2: t}])
+            out.append(pre + [{"op": "add", "count": 2, fld2: [t - 1, t]}])
+        # a removed service still blocks its ports
+        out.append([{"op": "add", "node_port": 6000}, {"op": "remove", "i": 0}, {"op": "add", fld2: 6000}])
+    return [{"faults": [], "ops": ops} for ops in out]
+
+
 class Runner:
     """runs batches through ctx.pipeline and remembers how many calls each case made"""
 
@@ -408,6 +438,10 @@ def run(ctx):
     doubles = second_placements(r, singles, rng, None if thorough else 1500)
     nid = tag(doubles, nid)
     r.run(doubles)
+    dirs = directed()
+    nid = tag(dirs, nid)
+    r.run(dirs)
+    ctx.cov["distribution"]["directed port-boundary histories"] = len(dirs)
     longs = [rand_history(rng, k % 2 == 0) for k in range(3000 if thorough else 500)]
     nid = tag(longs, nid)
     r.run(longs)
